@@ -249,6 +249,73 @@ func runProg1(m *Model, r *RuleResult) {
 						Detail: why + " (" + strings.TrimSpace(funcKey(f)) + ")", Control: ctl})
 				}
 			}
+			// the fix-point ends only when the flag is clear: the separation follows from "no guard fired in the last sweep", so the
+			// repetition may not be cut short by anything else (a pass counter, a depth limit); trivial-input exits (nil, element
+			// counts) and panics aside
+			if n > 0 {
+				var early []string
+				if rp.body == nil {
+					recs := staticCalls(f, func(c *ssa.Function) bool { return c == f })
+					eachInstr(f, func(in ssa.Instruction) {
+						ret, isRet := in.(*ssa.Return)
+						if !isRet {
+							return
+						}
+						for _, rc := range recs {
+							if instrDominates(rc, ret) {
+								return
+							}
+						}
+						okRet := false
+						var conds []string
+						for _, d := range transitiveControlDeps(ret.Block()) {
+							if p := isBoolPhi(d.If.Cond); p != nil && p == flag {
+								okRet = true // the branch not taken by the recursive call
+							}
+							if !isCountOrNilTest(d.If.Cond, 0) && isBoolPhi(d.If.Cond) == nil {
+								conds = append(conds, d.If.Cond.String()+" at "+m.Pos(d.If.Cond.Pos()))
+							}
+						}
+						if !okRet && len(conds) > 0 {
+							early = append(early, "the function returns under "+strings.Join(uniq(conds), ", ")+" without having swept until nothing moved")
+						}
+					})
+				} else {
+					for b := range rp.body {
+						for _, sc := range b.Succs {
+							if rp.body[sc] {
+								continue
+							}
+							iff, isIf := b.Instrs[len(b.Instrs)-1].(*ssa.If)
+							if isIf && isBoolPhi(iff.Cond) == flag {
+								continue
+							}
+							if isIf && isCountOrNilTest(iff.Cond, 0) {
+								continue
+							}
+							if _, isPanic := sc.Instrs[len(sc.Instrs)-1].(*ssa.Panic); isPanic {
+								continue
+							}
+							early = append(early, "the loop is left at "+m.Pos(b.Instrs[len(b.Instrs)-1].Pos())+" although the flag may be set")
+						}
+					}
+				}
+				ekey := "fixpoint:" + funcKey(f) + ":ends-when-clear"
+				dup := false
+				for _, o := range r.Obligations {
+					if o.Key == ekey {
+						dup = true
+					}
+				}
+				if !dup {
+					if len(early) == 0 {
+						r.add(Obligation{Key: ekey, Pos: m.Pos(f.Pos()), Desc: "the repetition ends only when a whole sweep moved nothing (the flag is clear)", Verdict: "holds", Control: ctl})
+					} else {
+						r.add(Obligation{Key: ekey, Pos: m.Pos(f.Pos()), Desc: "the fix-point may end only when the flag is clear", Verdict: "violation",
+							Detail: strings.Join(uniq(early), "; ") + ": the coordinates of the last, unchecked pass are final, so neighbours can still overlap", Control: ctl})
+					}
+				}
+			}
 		}
 	}
 }
